@@ -163,7 +163,8 @@ type c07Backend struct {
 	seq  [][]byte // scripted responses by arrival order (overrides raw), counted from base
 	base int
 	wg   sync.WaitGroup
-	live int32 // connections being served
+	live int32 // connections on which a request has started to arrive
+	idle map[net.Conn]bool // accepted, nothing received yet (a transport may pool a dialled connection unused)
 }
 
 func c07StartBackend(raw []byte) *c07Backend {
@@ -181,7 +182,12 @@ func c07StartBackend(raw []byte) *c07Backend {
 				return
 			}
 			b.wg.Add(1)
-			atomic.AddInt32(&b.live, 1)
+			b.mu.Lock()
+			if b.idle == nil {
+				b.idle = map[net.Conn]bool{}
+			}
+			b.idle[c] = true
+			b.mu.Unlock()
 			go b.serve(c)
 		}
 	}()
@@ -198,10 +204,20 @@ func (b *c07Backend) Quiesce() {
 
 func (b *c07Backend) serve(c net.Conn) {
 	defer b.wg.Done()
-	defer atomic.AddInt32(&b.live, -1)
 	defer c.Close()
 	c.SetDeadline(time.Now().Add(c07IOTimeout))
 	br := bufio.NewReader(c)
+	_, perr := br.Peek(1)
+	b.mu.Lock()
+	delete(b.idle, c)
+	if perr == nil {
+		atomic.AddInt32(&b.live, 1)
+	}
+	b.mu.Unlock()
+	if perr != nil {
+		return // opened and never used
+	}
+	defer atomic.AddInt32(&b.live, -1)
 	h, ok := c07ReadHead(br)
 	if !ok {
 		return // connection opened and dropped without a request head: nothing was received
@@ -259,6 +275,11 @@ func (b *c07Backend) Seen() []c07Seen {
 
 func (b *c07Backend) Close() []c07Seen {
 	b.ln.Close()
+	b.mu.Lock()
+	for c := range b.idle {
+		c.Close() // unused connections would otherwise be waited for until their deadline
+	}
+	b.mu.Unlock()
 	b.wg.Wait()
 	b.mu.Lock()
 	defer b.mu.Unlock()
